@@ -65,6 +65,32 @@ class _Unsupported(Exception):
     pass
 
 
+def _const_truth(e):
+    """truth value of a test that is a constant, or a comparison / negation / conjunction of constants; None otherwise"""
+    if isinstance(e, ast.Constant) and (isinstance(e.value, (bool, int, str)) or e.value is None):
+        return bool(e.value)
+    if isinstance(e, ast.UnaryOp) and isinstance(e.op, ast.Not):
+        r = _const_truth(e.operand)
+        return None if r is None else not r
+    if isinstance(e, ast.Compare) and len(e.ops) == 1 and isinstance(e.left, ast.Constant) and isinstance(e.comparators[0], ast.Constant):
+        a, b = e.left.value, e.comparators[0].value
+        op = e.ops[0]
+        if isinstance(op, (ast.Is, ast.Eq)):
+            return a is b if isinstance(op, ast.Is) and (a is None or b is None) else a == b
+        if isinstance(op, (ast.IsNot, ast.NotEq)):
+            return not (a is b) if isinstance(op, ast.IsNot) and (a is None or b is None) else a != b
+    if isinstance(e, ast.BoolOp):
+        rs = [_const_truth(v) for v in e.values]
+        if isinstance(e.op, ast.And):
+            if any(r is False for r in rs):
+                return False
+            return True if all(r is True for r in rs) else None
+        if any(r is True for r in rs):
+            return True
+        return False if all(r is False for r in rs) else None
+    return None
+
+
 def _block(stmts, live, out):
     """advances every live path through stmts; finished paths are appended to out; returns the paths that fall through"""
     for st in stmts:
@@ -154,6 +180,11 @@ def _stmt(st, live, out):
         t_live, f_live = [], []
         for p in live:
             t = subst(st.test, p.env)
+            k = _const_truth(t)
+            if k is not None:
+                # the decision is fixed by what this path already assigned (e.g. a flag set to False): only one arm is feasible
+                (t_live if k else f_live).append(p)
+                continue
             a, b = p, p.copy()
             a.conds.append((t, True))
             b.conds.append((t, False))
